@@ -25,7 +25,7 @@ NAMES = [
     "unnamed_field", "_", "__",
     # names equal to what the collision numbering would hand out
     "STATUS_2", "status_2", "a_dot_b_2", "content_2", "ws_2", "x_2", "X", "x", "X_2", "x_3", "unnamed_field_2",
-] + [s.upper() for s in STRUCTURAL] + STRUCTURAL + [s.upper().replace("-", "_") for s in STRUCTURAL if "-" in s] + ["Field", "Root", "Ws", "number", "string", "boolean", "digit"]
+] + [s.upper() for s in STRUCTURAL] + STRUCTURAL + [s.upper().replace("-", "_") for s in STRUCTURAL if "-" in s] + ["Field", "Root", "Ws", "number", "string", "boolean", "digit"] + ["ROOT_", "_content", "ws-", "Document!", "FIELD_", "_ROOT_"]  # names that become a structural rule name only AFTER sanitising
 
 REGEXES = [
     "^[a-z]+$", "[A-Z]{2,6}", "^abc$", "abc", "a.c", "a\\.c", "^a|b$", "(a|b)+", "(?:ab)*", "[a-z]+[0-9]*", "[^\\]]+", "[\\w]+", "\\d{4}", "x{2}", "x{2,}", "x{,3}",
